@@ -703,6 +703,7 @@ func (x *strans) args(args []ast.Expr, ptypes []string, variadic bool, en senv, 
 
 // dropArg: an argument of a dropped type must be free of effects: a field, a literal, or fmt.Sprintf of such
 func (x *strans) dropArg(a ast.Expr, en senv) {
+	covSkip("TransSt."+x.t.Lean, a, "dropped argument")
 	switch a := a.(type) {
 	case *ast.BasicLit, *ast.Ident:
 		return
